@@ -289,8 +289,8 @@ func (ip *Interp) runClosure(fn *ssa.Function, args []any, binds []any, depth in
 					}
 					if g, isG := x.X.(*ssa.Global); isG && ip.useGlobals && ip.globals == nil && g.Pkg != nil && strings.HasPrefix(g.Pkg.Pkg.Path(), modPath) {
 						sp := shortPkg(g.Pkg.Pkg.Path())
-						if ip.m.globalMapWritten(sp, g.Name()) == "" {
-							if v, ok := ip.m.evalGlobals(sp)[g.Name()]; ok && v != nil {
+						if ip.m.globalMapWritten(sp, canonGlobalName(g)) == "" {
+							if v, ok := ip.m.evalGlobals(sp)[canonGlobalName(g)]; ok && v != nil {
 								env[x] = v
 								continue
 							}
@@ -931,9 +931,9 @@ func (m *Model) evalGlobals(pkgShort string) map[string]any {
 			continue
 		}
 		if _, isArr := g.Type().Underlying().(*types.Pointer).Elem().Underlying().(*types.Array); isArr {
-			out[g.Name()] = cell
+			out[canonGlobalName(g)] = cell
 		} else if len(cell.elems) == 1 && cell.elems[0] != nil {
-			out[g.Name()] = cell.elems[0]
+			out[canonGlobalName(g)] = cell.elems[0]
 		}
 	}
 	return out
